@@ -43,6 +43,12 @@ class StmtMixin:
         v = st.value
         if isinstance(v, ast.Constant):
             return
+        if isinstance(v, ast.Yield):
+            hook = getattr(self, "_yield_hook", None)
+            if hook is None:
+                self.oos(st, "yield outside an inlined context manager")
+            hook()
+            return
         if isinstance(v, ast.Call) and isinstance(v.func, ast.Attribute) and isinstance(v.func.value, ast.Name):
             # mutating method on a local pure list
             name = v.func.value.id
